@@ -262,8 +262,46 @@ def write_container_replay(case, kw, mode):
     return path
 
 
+def work_solve_api(case):
+    """solve_axes / solve_shapes / matches with sizes given as numpy arrays (int64, C-contiguous - what solve_axes itself
+    returns for ellipsis axes), 0-d arrays and numpy scalars: the size objects must come back untouched."""
+    import einx
+    from vlib.desc import show_expr
+
+    desc_in = ", ".join(show_expr(e) for e in case["ins"])
+    res = {"desc": desc_in, "op": "solve_*", "layouts": ["C"] * len(case["ins"]), "mode": "solve-api", "status": "holds", "call": "ok"}
+    for api in ("solve_axes", "solve_shapes", "matches"):
+        for variant in ("array", "0d"):
+            kw = {}
+            for k, v in case["kwargs"].items():
+                if isinstance(v, tuple):
+                    kw[k] = np.array(v, dtype=np.int64)
+                elif variant == "0d":
+                    kw[k] = np.array(v, dtype=np.int64)
+                else:
+                    kw[k] = np.int64(v)
+            snap = copy.deepcopy(kw)
+            metas = {k: container_meta(v) for k, v in kw.items()}
+            arrays = [np.zeros(shape(expand(e))) for e in case["ins"]]
+            try:
+                getattr(einx, api)(desc_in, *arrays, **kw)
+            except Exception:  # noqa: BLE001
+                pass
+            same = all(container_meta(kw[k]) == metas[k] and np.array_equal(np.asarray(kw[k]), np.asarray(snap[k])) for k in kw)
+            if not same:
+                path = write_container_replay(dict(case, op=api, desc=desc_in), snap, "solve-api")
+                ok, out = replay.run_script(path)
+                res["replay"], res["replay_out"] = path, out[-800:]
+                res["status"] = "container-modified" if ok else "not-reproduced"
+                res["op"] = api
+                return res
+    return res
+
+
 def work(item):
     case, layouts, timeout_ms, mode = item
+    if mode == "solve-api":
+        return work_solve_api(case)
     arrs, bases, tags = [], [], []
     for i, (e, kind) in enumerate(zip(case["ins"], case["kinds"])):
         a, b, t = make_layout(f"{'c' if kind == 'coord' else 't'}{i}", kind, shape(expand(e)), layouts[i])
@@ -276,12 +314,12 @@ def work(item):
     kw = dict(case["kwargs"])
     kw.update(case["opts"])
     # containers passed as sizes / options are compared concretely
-    if mode == "containers":
+    if mode.startswith("containers"):
         for k, v in list(kw.items()):
             if isinstance(v, tuple):
-                kw[k] = list(v) if len(k) % 2 else np.array(v)
+                kw[k] = np.array(v) if mode == "containers-array" else list(v)
             elif isinstance(v, int) and k not in ("keepdims",) and k in case["kwargs"]:
-                kw[k] = np.int64(v) if len(case["desc"]) % 2 else v
+                kw[k] = np.int64(v) if mode == "containers-array" else v
     kw_snapshot = copy.deepcopy(kw)
     kw_meta = {k: container_meta(v) for k, v in kw.items()}
     extra = {"graph": True} if mode == "graph" else {}
@@ -297,7 +335,7 @@ def work(item):
     # concrete shadow on the same layouts: validates the symbolic write-set against a real execution, and is the
     # only observation left when the symbolic run was cut short (a primitive outside the model, or a comparison of
     # symbolic values inside numpy's own C code, e.g. an in-place ndarray.sort)
-    if mode != "containers":
+    if not mode.startswith("containers"):
         spec = shadow_spec(case, tags, mode)
         try:
             sh_outcome, sh_changed = shadow_run(spec)
@@ -409,7 +447,10 @@ def main():
             if rng.random() < 0.2:
                 items.append((c, ["C"] * k, timeout_ms, "graph"))
             if any(isinstance(v, tuple) for v in list(c["kwargs"].values()) + list(c["opts"].values())) or rng.random() < 0.1:
-                items.append((c, ["C"] * k, timeout_ms, "containers"))
+                items.append((c, ["C"] * k, timeout_ms, "containers-list"))
+                items.append((c, ["C"] * k, timeout_ms, "containers-array"))
+            if c["kwargs"] and fam not in ("update", "get_at") and rng.random() < 0.5:
+                items.append((c, ["C"] * k, timeout_ms, "solve-api"))
     results = runner.pmap(work, items, chunksize=8)
     status = collections.Counter()
     lay_count = collections.Counter()
